@@ -398,7 +398,7 @@ func genFor(t *rapid.T, e *entry) parseCase {
 	return c
 }
 
-var chkParse = harness.Define("parse-any-bytes", genParse, runParse)
+var chkParse = harness.Define("parse-any-bytes", genParse, runParse).Repeated(2)
 
 func TestRandom(t *testing.T) {
 	chkParse.Rapid(t, harness.Pick(50000, 4000000))
